@@ -57,12 +57,25 @@ def parseMod (s : String) : Option ModSpec :=
 
 def parseWorld (s : String) : World := (s.splitOn ";").filterMap parseMod
 
-/-- the harness normalises the `set:`/`sum:` tag that raw set_sum values show in the digest of a deltas
-input (known finding C01/set_sum-tag-visible-in-deltas): "7365743a" ↦ "73756d3a" in the payload text -/
-def normTag : Bytes → Bytes
-  | 55 :: 51 :: 54 :: 53 :: 55 :: 52 :: 51 :: 97 :: rest => [55, 51, 55, 53, 54, 100, 51, 97] ++ normTag rest
-  | c :: rest => c :: normTag rest
-  | [] => []
+/-! the harness normalises the `set:`/`sum:` tag that raw set_sum values show in the digest of a deltas
+input (known finding C01/set_sum-tag-visible-in-deltas): hex^k("set:") ↦ hex^k("sum:") in the payload text -/
+
+/-- replace every (left-most, non-overlapping) occurrence of `pat` by `rep`; `skip` = bytes of a match still to drop -/
+def replaceAllB (pat rep : Bytes) : Nat → Bytes → Bytes
+  | _, [] => []
+  | skip + 1, _ :: rest => replaceAllB pat rep skip rest
+  | 0, c :: rest =>
+    if pat ≠ [] ∧ pat.isPrefixOf (c :: rest) then rep ++ replaceAllB pat rep (pat.length - 1) rest
+    else c :: replaceAllB pat rep 0 rest
+
+/-- hex^k of a byte string (the digest renders values in hex, and embeds digests in hex again) -/
+def hexK : Nat → Bytes → Bytes
+  | 0, b => b
+  | k + 1, b => hexK k (hexv b)
+
+/-- every nesting level 6 … 1 of the tag, deepest first (as `sys.NormTag` of the harness) -/
+def normTag (p : Bytes) : Bytes :=
+  [6, 5, 4, 3, 2, 1].foldl (fun acc k => replaceAllB (hexK k pfxSet) (hexK k pfxSum) 0 acc) p
 
 def showStream (l : List (Nat × Option Bytes)) : String :=
   " ".intercalate (l.filterMap fun p => match p.2 with
